@@ -53,6 +53,13 @@ func (p *parser) expression(prec int) (Node, error) {
 		return nil, err
 	}
 
+	return p.expressionLoop(node, prec)
+}
+
+// expressionLoop continues an expression whose left operand node has already
+// been parsed, consuming every operator that binds tighter than prec.
+func (p *parser) expressionLoop(node Node, prec int) (Node, error) {
+	var err error
 	newPrec := precedence(p.curr.Type)
 	for newPrec > prec {
 		switch p.curr.Type {
@@ -89,7 +96,7 @@ func (p *parser) expression(prec int) (Node, error) {
 				return nil, err
 			}
 
-			right, err := p.projection(precedence(lexer.ObjectWildcardToken))
+			right, err := p.projection(projectionPrecedence)
 			if err != nil {
 				return nil, err
 			}
@@ -172,16 +179,9 @@ func (p *parser) expression(prec int) (Node, error) {
 					return nil, err
 				}
 
-				if isProjectNode(node) {
-					node = &ProjectArrayNode{
-						Left:  node,
-						Right: right,
-					}
-				} else {
-					node = &PipeNode{
-						Left:  node,
-						Right: right,
-					}
+				node = &PipeNode{
+					Left:  node,
+					Right: right,
 				}
 			default:
 				return nil, &unexpectedTokenError{p.curr.Value}
@@ -210,7 +210,7 @@ func (p *parser) expression(prec int) (Node, error) {
 				return nil, err
 			}
 
-			right, err := p.projection(newPrec)
+			right, err := p.projection(projectionPrecedence)
 			if err != nil {
 				return nil, err
 			}
@@ -232,7 +232,7 @@ func (p *parser) expression(prec int) (Node, error) {
 				return nil, err
 			}
 
-			right, err := p.projection(newPrec)
+			right, err := p.projection(projectionPrecedence)
 			if err != nil {
 				return nil, err
 			}
@@ -350,7 +350,7 @@ func (p *parser) expression(prec int) (Node, error) {
 				return nil, err
 			}
 
-			right, err := p.projection(newPrec)
+			right, err := p.projection(projectionPrecedence)
 			if err != nil {
 				return nil, err
 			}
@@ -377,7 +377,7 @@ func (p *parser) expression(prec int) (Node, error) {
 			}
 
 			if project {
-				right, err := p.projection(newPrec)
+				right, err := p.projection(projectionPrecedence)
 				if err != nil {
 					return nil, err
 				}
@@ -1639,7 +1639,7 @@ func (p *parser) primaryExpression() (Node, error) {
 			return nil, err
 		}
 
-		child, err := p.projection(precedence(lexer.ObjectWildcardToken))
+		child, err := p.projection(projectionPrecedence)
 		if err != nil {
 			return nil, err
 		}
@@ -1656,7 +1656,7 @@ func (p *parser) primaryExpression() (Node, error) {
 			return nil, err
 		}
 
-		child, err := p.projection(precedence(lexer.ObjectWildcardToken))
+		child, err := p.projection(projectionPrecedence)
 		if err != nil {
 			return nil, err
 		}
@@ -1684,7 +1684,7 @@ func (p *parser) primaryExpression() (Node, error) {
 			return nil, err
 		}
 
-		child, err := p.projection(precedence(lexer.FilterToken))
+		child, err := p.projection(projectionPrecedence)
 		if err != nil {
 			return nil, err
 		}
@@ -1704,7 +1704,7 @@ func (p *parser) primaryExpression() (Node, error) {
 			return nil, err
 		}
 
-		child, err := p.projection(precedence(lexer.FlattenToken))
+		child, err := p.projection(projectionPrecedence)
 		if err != nil {
 			return nil, err
 		}
@@ -1786,7 +1786,7 @@ func (p *parser) primaryExpression() (Node, error) {
 			}
 
 			if project {
-				right, err := p.projection(precedence(lexer.OpenSqBraceToken))
+				right, err := p.projection(projectionPrecedence)
 				if err != nil {
 					return nil, err
 				}
@@ -1875,10 +1875,20 @@ func (p *parser) primaryExpression() (Node, error) {
 	return node, nil
 }
 
+// projection parses the right-hand side of a projection: the selectors that
+// follow it are applied to each projected element, so the implicit current
+// node becomes the left operand of the ordinary operator loop at prec. It
+// returns a nil Node when no selector follows.
 func (p *parser) projection(prec int) (Node, error) {
 	var node Node
 	var err error
 	switch p.curr.Type {
+	case lexer.ArrayWildcardToken,
+		lexer.FilterToken:
+		node, err = p.primaryExpression()
+		if err != nil {
+			return nil, err
+		}
 	case lexer.DotToken:
 		switch p.next.Type {
 		case lexer.ArrayWildcardToken:
@@ -1913,42 +1923,25 @@ func (p *parser) projection(prec int) (Node, error) {
 				return nil, err
 			}
 
-			node, err = p.expression(prec)
-			if err != nil {
-				return nil, err
-			}
+			return p.expression(prec)
 		default:
 			return nil, &unexpectedTokenError{p.curr.Value}
 		}
-	case lexer.FilterToken:
+	case lexer.ObjectWildcardToken:
 		if err := p.advance(); err != nil {
 			return nil, err
 		}
 
-		filter, err := p.filter()
+		child, err := p.projection(projectionPrecedence)
 		if err != nil {
 			return nil, err
 		}
 
-		node = &FilterCurrentNode{
-			Filter: filter,
-		}
-	case lexer.ObjectWildcardToken:
-		if p.next.Type == lexer.EndToken {
-			if err := p.advance(); err != nil {
-				return nil, err
-			}
-
+		if child == nil {
 			node = ObjectValuesCurrentNode{}
 		} else {
-			p.setCurrent(lexer.Token{
-				Type:  lexer.AsteriskToken,
-				Value: p.curr.Value[1:],
-			})
-
-			node, err = p.expression(prec)
-			if err != nil {
-				return nil, err
+			node = &ProjectObjectCurrentNode{
+				Child: child,
 			}
 		}
 	case lexer.OpenSqBraceToken:
@@ -1956,115 +1949,30 @@ func (p *parser) projection(prec int) (Node, error) {
 			return nil, err
 		}
 
-		node, _, err = p.index(nil)
+		var project bool
+		node, project, err = p.index(nil)
 		if err != nil {
 			return nil, err
+		}
+
+		if project {
+			right, err := p.projection(projectionPrecedence)
+			if err != nil {
+				return nil, err
+			}
+
+			if right != nil {
+				node = &ProjectArrayNode{
+					Left:  node,
+					Right: right,
+				}
+			}
 		}
 	default:
 		return nil, nil
 	}
 
-	newPrec := precedence(p.curr.Type)
-	for newPrec > prec {
-		switch p.curr.Type {
-		case lexer.DotToken:
-			switch p.next.Type {
-			case lexer.ArrayWildcardToken:
-				if err := p.advance2(); err != nil {
-					return nil, err
-				}
-
-				node = &SelectArraySingleNode{
-					Child: node,
-					Field: ObjectValuesCurrentNode{},
-				}
-			case lexer.OpenBraceToken:
-				if err := p.advance2(); err != nil {
-					return nil, err
-				}
-
-				node, err = p.selectObject(node)
-				if err != nil {
-					return nil, err
-				}
-			case lexer.OpenSqBraceToken:
-				if err := p.advance2(); err != nil {
-					return nil, err
-				}
-
-				node, err = p.selectArray(node)
-				if err != nil {
-					return nil, err
-				}
-			case lexer.QuotedIdentifierToken,
-				lexer.UnquotedIdentifierToken:
-				if err := p.advance(); err != nil {
-					return nil, err
-				}
-
-				node, err = p.expression(newPrec)
-				if err != nil {
-					return nil, err
-				}
-			default:
-				return nil, &unexpectedTokenError{p.curr.Value}
-			}
-		case lexer.FilterToken:
-			if err := p.advance(); err != nil {
-				return nil, err
-			}
-
-			filter, err := p.filter()
-			if err != nil {
-				return nil, err
-			}
-
-			node = &FilterNode{
-				Child:  node,
-				Filter: filter,
-			}
-		case lexer.ObjectWildcardToken:
-			if p.curr.Type == lexer.EndToken {
-				if err := p.advance(); err != nil {
-					return nil, err
-				}
-
-				node = &ObjectValuesNode{
-					Child: node,
-				}
-			} else {
-				p.setCurrent(lexer.Token{
-					Type:  lexer.AsteriskToken,
-					Value: p.curr.Value[1:],
-				})
-
-				right, err := p.expression(newPrec)
-				if err != nil {
-					return nil, err
-				}
-
-				node = &ProjectObjectNode{
-					Left:  node,
-					Right: right,
-				}
-			}
-		case lexer.OpenSqBraceToken:
-			if err := p.advance(); err != nil {
-				return nil, err
-			}
-
-			node, _, err = p.index(node)
-			if err != nil {
-				return nil, err
-			}
-		default:
-			return nil, &unexpectedTokenError{p.curr.Value}
-		}
-
-		newPrec = precedence(p.curr.Type)
-	}
-
-	return node, nil
+	return p.expressionLoop(node, prec)
 }
 
 func (p *parser) selectArray(child Node) (Node, error) {
@@ -2191,10 +2099,6 @@ func (p *parser) selectObject(child Node) (Node, error) {
 			return nil, &unexpectedTokenError{p.curr.Value}
 		}
 	}
-}
-
-func (p *parser) setCurrent(tok lexer.Token) {
-	p.curr = tok
 }
 
 func parseJSONLiteral(s string) (Node, error) {
